@@ -1245,6 +1245,15 @@ fn exec_wasm_on<A: Api>(mut apps: Vec<AppOf<A>>, sym_fn: fn(&AppOf<A>, &str) -> 
             ),
             "dump" => dump(app),
             "rawhash" => raw_hash(app),
+            // byte-exact records of the bank and wasm namespaces (keys, JSON text, contract values)
+            "rawdump" => {
+                let recs: Vec<(Vec<u8>, Vec<u8>)> = app
+                    .storage()
+                    .range(None, None, Order::Ascending)
+                    .filter(|(k, _)| k.starts_with(b"\x00\x04bank") || k.starts_with(b"\x00\x04wasm"))
+                    .collect();
+                format!("raw{}", fmt_records(&recs))
+            }
             // verdict slot of slice wasm-bech-mix (filled in by exec_wasm_bech_mix)
             "nondet" => "!det".into(),
             "trace" => TRACE.with(|t| {
